@@ -6,10 +6,24 @@ open Chf.Config
 def cfgOfMask (m : Nat) (sc : Scheme) (sv : Services) : Cfg :=
   let has (i : Nat) : Bool := !(m.testBit i)
   ⟨has 0, has 1, has 2, has 3, has 4, has 5, has 6, has 7, has 8, has 9, has 10, has 11, has 12, has 13, has 14,
-   has 15, has 16, has 17, has 18, has 19, sc, sv⟩
+   has 15, has 16, has 17, has 18, has 19, sc, sv, .tcp, .tcp, false⟩
+
+def protoOf (s : String) : Proto :=
+  if s = "tcp" then .tcp else if s = "sctp" then .sctp else if s = "none" then .absent else .other
+
+/-- `rfp=<proto>`, `abp=<proto>`, `cgf=on|off` -/
+def applyOpts (c : Cfg) : List String → Option Cfg
+  | [] => some c
+  | t :: r =>
+    match t.splitOn "=" with
+    | ["rfp", v] => applyOpts { c with rfProto := protoOf v } r
+    | ["abp", v] => applyOpts { c with abmfProto := protoOf v } r
+    | ["cgf", v] => if v = "on" then applyOpts { c with cgfEnable := true } r
+                    else if v = "off" then applyOpts { c with cgfEnable := false } r else none
+    | _ => none
 
 def configOp : Tok → String
-  | ["run", mask, scheme, svc] =>
+  | "run" :: mask :: scheme :: svc :: opts =>
     (match mask.toNat? with
      | some m =>
        let sc : Scheme := if scheme = "http" then .http else if scheme = "https" then .https
@@ -20,8 +34,9 @@ def configOp : Tok → String
                                    else if svc = "empty" then some .empty else none
        (match sv with
         | some sv =>
-          let c := cfgOfMask m sc sv
-          if validate c then (if startsOK c then "accepted starts" else "accepted CRASHES") else "rejected"
+          (match applyOpts (cfgOfMask m sc sv) opts with
+           | some c => if validate c then (if startsOK c then "accepted starts" else "accepted CRASHES") else "rejected"
+           | none => "bad-op")
         | none => "bad-op")
      | none => "bad-op")
   | _ => "bad-op"
